@@ -55,6 +55,9 @@ pub enum Ending {
     MalformedHeaders,
     SplitSendHalfDroppedFirst,
     SplitRecvHalfDroppedFirst,
+    /// answered and finish()ed, but the application keeps the handle for a while (sampled
+    /// histories only; the enumeration runs over the eight endings above)
+    FinishedButHeld,
 }
 const ENDINGS: [Ending; 8] = [
     Ending::NormalFinish,
@@ -177,7 +180,7 @@ fn raw_steps(id: u64, e: Ending) -> Vec<ScriptStep> {
         w
     };
     match e {
-        Ending::NormalFinish | Ending::SplitSendHalfDroppedFirst | Ending::SplitRecvHalfDroppedFirst => vec![raw::step_write(CLIENT, id, good), raw::step_fin(CLIENT, id)],
+        Ending::NormalFinish | Ending::SplitSendHalfDroppedFirst | Ending::SplitRecvHalfDroppedFirst | Ending::FinishedButHeld => vec![raw::step_write(CLIENT, id, good), raw::step_fin(CLIENT, id)],
         // the application drops the resolver without looking at the stream; the bytes do not matter
         Ending::ResolverDropped => vec![raw::step_write(CLIENT, id, good)],
         Ending::FinBeforeHeaders => vec![raw::step_fin(CLIENT, id)],
@@ -261,6 +264,11 @@ async fn handle(resolver: Resolver, sid: u64, e: Ending, p: Probe, second_drop: 
                 let m = Msg { status: 200, ..Default::default() };
                 let _ = p.call(&actor, "send_response", stream.send_response(m.to_response()), |r| match r { Ok(()) => Out::Ok, Err(e) => Out::Err(AErr::from_h3(e)) }).await;
                 let _ = p.call(&actor, "finish", stream.finish(), |r| match r { Ok(()) => Out::Ok, Err(e) => Out::Err(AErr::from_h3(e)) }).await;
+            }
+            if e == Ending::FinishedButHeld {
+                // the request is answered and finished, the handle lives on until the schedule says so
+                p.record(&actor, "handle kept after finish()", Out::Ok);
+                second_drop.wait().await;
             }
             drop(stream);
             dropped("drop stream");
@@ -388,6 +396,7 @@ fn check_history(endings: &[Ending], goaway_pos: usize, pool: Option<usize>, see
     // release script: requests are released one after the other, the GOAWAY at its position
     let gates: Vec<Arc<Mutex<bool>>> = ids.iter().map(|_| Arc::new(Mutex::new(false))).collect();
     let mut main: Vec<ScriptStep> = Vec::new();
+    let mut repeat_goaway_at: Option<usize> = None;
     for i in 0..=ids.len() {
         if i == goaway_pos {
             // frames a server ignores may precede the GOAWAY (same write or an earlier one)
@@ -408,6 +417,13 @@ fn check_history(endings: &[Ending], goaway_pos: usize, pool: Option<usize>, see
                 main.push(raw::step_write(CLIENT, ctrl, noise));
                 main.push(raw::step_write(CLIENT, ctrl, rf::varint_frame(rf::T_GOAWAY, 0)));
             }
+            // a peer may say it again (an identifier that is not larger is legal, RFC 9114 5.2)
+            repeat_goaway_at = if rng.chance(1, 5) { Some(i + rng.usize(ids.len() + 1 - i)) } else { None };
+        }
+        if repeat_goaway_at == Some(i) {
+            rep.count("histories_with_a_repeated_goaway");
+            main.push(raw::step_write(CLIENT, ctrl, rf::varint_frame(rf::T_GOAWAY, 0)));
+            repeat_goaway_at = None;
         }
         if i < ids.len() {
             let g = gates[i].clone();
@@ -420,7 +436,7 @@ fn check_history(endings: &[Ending], goaway_pos: usize, pool: Option<usize>, see
         let mut steps = vec![raw::step_custom("wait for release", move |_| *g.lock().unwrap(), |_, _| {})];
         steps.extend(raw_steps(*id, endings[i]));
         // the second half of a split request is dropped when the schedule says so
-        if matches!(endings[i], Ending::SplitSendHalfDroppedFirst | Ending::SplitRecvHalfDroppedFirst) {
+        if matches!(endings[i], Ending::SplitSendHalfDroppedFirst | Ending::SplitRecvHalfDroppedFirst | Ending::FinishedButHeld) {
             let s = sigs[id].clone();
             steps.push(raw::step_custom("let the application drop the second half", |_| true, move |_, _| s.fire()));
         }
@@ -529,7 +545,7 @@ fn run_case(gen: &str, index: u64, seed: u64, _tier: Tier, rep: &mut Report) {
         }
         "random_histories" => {
             let k = rng.usize(5);
-            let endings: Vec<Ending> = (0..k).map(|_| *rng.pick(&ENDINGS)).collect();
+            let endings: Vec<Ending> = (0..k).map(|_| if rng.chance(1, 9) { Ending::FinishedButHeld } else { *rng.pick(&ENDINGS) }).collect();
             let pos = rng.usize(k + 1);
             check_history(&endings, pos, None, rng.next(), rep);
         }
@@ -539,7 +555,7 @@ fn run_case(gen: &str, index: u64, seed: u64, _tier: Tier, rep: &mut Report) {
             let span = if rng.chance(1, 3) { 12 } else { 70 };
             let k = 2 + rng.usize(span);
             let normal_pct = *rng.pick(&[0u64, 50, 90]);
-            let endings: Vec<Ending> = (0..k).map(|_| if rng.below(100) < normal_pct { Ending::NormalFinish } else { *rng.pick(&ENDINGS) }).collect();
+            let endings: Vec<Ending> = (0..k).map(|_| if rng.below(100) < normal_pct { Ending::NormalFinish } else if rng.chance(1, 9) { Ending::FinishedButHeld } else { *rng.pick(&ENDINGS) }).collect();
             let pos = rng.usize(k + 1);
             let pool = if rng.bool() { k } else { 1 + rng.usize(k) };
             check_history(&endings, pos, Some(pool), rng.next(), rep);
